@@ -300,6 +300,21 @@ impl InMemoryZoneDiffBuilder {
         self.removed.insert((owner, rtype), rrset);
     }
 
+    /// Forget any RRset recorded as added for the given owner and type.
+    pub fn clear_added(&mut self, owner: &StoredName, rtype: Rtype) {
+        self.added.remove(&(owner.clone(), rtype));
+    }
+
+    /// Forget all RRsets recorded as added at or below the given name.
+    pub fn clear_added_at_or_below(&mut self, name: &StoredName) {
+        self.added.retain(|(owner, _), _| !owner.ends_with(name));
+    }
+
+    /// Forget any RRset recorded as removed for the given owner and type.
+    pub fn clear_removed(&mut self, owner: &StoredName, rtype: Rtype) {
+        self.removed.remove(&(owner.clone(), rtype));
+    }
+
     /// Exchange this builder instnace for an immutable [`ZoneDiff`].
     ///
     /// The start serial should be the zone version to which the diffs should
